@@ -254,7 +254,7 @@ def task(spec):
         return [(cp, rc.choice(["kill", "powerloss"]), rc.randrange(1 << 30), "dead" if rc.random() < 0.5 else None) for cp in pts]
 
     def choose_tampers(log_text):
-        out = []
+        out = list(T.targeted_tampers(log_text))          # deterministic: the operands of the first stores
         for _ in range(5 if spec["tier"] == "quick" else 12):
             out.append(T.tamper_log(rt, log_text, []))
         return out
